@@ -62,7 +62,13 @@ def elem_sort(dtype):
         return z3.IntSort()
     if dtype == 'bool':
         return z3.BoolSort()
+    if dtype == 'str':
+        return z3.IntSort()     # abstract strings: an element is the identity of a string
     raise Unsupported('no z3 sort for dtype %r' % (dtype,))
+
+
+# float(s) of an abstract string s (string layer: assumed total on the columns a contract declares numeric)
+STR_NUM = z3.Function('float_of_string', z3.IntSort(), z3.RealSort())
 
 
 def coerce_elem(v, dtype):
@@ -554,14 +560,17 @@ class Lib:
                 return r
             if full(i1) and not isinstance(i0, (slice, Arr, list)):
                 return self.arr_getitem(a, i0)
-            nc = simp(a.shape[1])
-            if full(i0) and isinstance(i1, slice) and isinstance(nc, int) and i1.step in (None, 1) \
-                    and all(x is None or isinstance(simp(x), int) for x in (i1.start, i1.stop)):
-                # a[:, lo:hi] with concrete column bounds: a view of those columns
-                lo, hi, _ = slice(None if i1.start is None else simp(i1.start), None if i1.stop is None else simp(i1.stop)).indices(nc)
+            basic = lambda x: (isinstance(x, slice) and x.step in (None, 1)) or not isinstance(x, (slice, Arr, list))
+            if basic(i0) and basic(i1) and (isinstance(i0, slice) or isinstance(i1, slice)):
+                # basic indexing a[r, c] with r, c each an integer or a slice lo:hi (step 1): a view
+                axes = [self._axis_view(x, n) for x, n in zip(idx, a.shape)]
                 base = a
-                r = Arr((a.shape[0], max(0, hi - lo)), lambda ix, lo=lo: base.f((ix[0], simp(ix[1] + lo))), a.dtype)
-                return r
+                shape = tuple(ln for kind, off, ln in axes if kind == 'slice')
+
+                def fview(ix, axes=axes):
+                    it = iter(ix)
+                    return base.f(tuple(off if kind == 'int' else simp(next(it) + off) for kind, off, ln in axes))
+                return Arr(shape, fview, a.dtype)
             if isinstance(i0, Arr) and isinstance(i1, Arr) and i0.dtype == 'int64' and i1.dtype == 'int64':
                 shape = self._bshape(i0, i1)
                 f0, f1, fa = i0.f, i1.f, a.f
@@ -571,6 +580,27 @@ class Lib:
                 n0, n1 = a.shape
                 return Arr(shape, lambda ix: fa((self._wrap_pure(f0(ix), n0), self._wrap_pure(f1(ix), n1))), a.dtype)
         raise Unsupported('tuple index %r' % (idx,))
+
+    def _axis_view(self, x, n):
+        """('int', index, None) or ('slice', offset, length) for one axis of a basic index"""
+        if not isinstance(x, slice):
+            return ('int', self.wrap_index(x, n), None)
+        lo = None if x.start is None else simp(x.start)
+        hi = None if x.stop is None else simp(x.stop)
+        nn = simp(n)
+        if isinstance(nn, int) and all(v is None or isinstance(v, int) for v in (lo, hi)):
+            a, b, _ = slice(lo, hi).indices(nn)
+            return ('slice', a, max(0, b - a))
+        if not all(v is None or (isinstance(v, int) and v >= 0) for v in (lo, hi)):
+            raise Unsupported('slice with symbolic or negative bounds on an axis of symbolic length')
+        zn = to_z3(n)
+        a = 0 if lo is None else lo
+        # python clamps: start = min(lo, n), stop = min(hi, n), length = max(stop - start, 0)
+        stop = zn if hi is None else z3.If(zn < hi, zn, z3.IntVal(hi))
+        ln = simp(stop - a)
+        if self.ctx.feasible(to_z3(ln) < 0):
+            ln = simp(z3.If(to_z3(ln) > 0, to_z3(ln), 0))
+        return ('slice', a, ln)
 
     def _wrap_pure(self, i, n):
         i = simp(i)
@@ -1626,6 +1656,8 @@ def _astype(L, a, dt, **kw):
             return Arr(a.shape, lambda ix: to_real(f(ix)) if is_sym(f(ix)) else float(f(ix)), kind)
     if kind == 'bool' and a.dtype in ('int64',) + FLOAT_DT:
         return Arr(a.shape, lambda ix: to_z3(f(ix)) != 0, 'bool')
+    if a.dtype == 'str' and kind in FLOAT_DT:
+        return Arr(a.shape, lambda ix: STR_NUM(to_z3(f(ix))), kind)
     raise Unsupported('astype %s -> %s' % (a.dtype, kind))
 
 
